@@ -1,12 +1,12 @@
-CONSTANTS Tasks = {t1, t2}  MaxOps = 2  YieldSet = TRUE  TSO = TRUE  Bug = "BufferNotFifo"  RelPlain = TRUE  Nb0 = 7  EnvNb = FALSE
+CONSTANTS Tasks = {t1, t2}  MaxOps = 2  YieldSet = TRUE  TSO = TRUE  Bug = "BufferNotFifo"  RelPlain = TRUE  Nb0 = 7  EnvNb = FALSE  WordMod = 0
 CONSTANT Prog <- ExtractedProg  EntryAcq <- ExtractedEntryAcq  EntryTry <- ExtractedEntryTry  EntryRel <- ExtractedEntryRel
 SPECIFICATION Spec
 INVARIANT MutualExclusion
-INVARIANT HeldMeansLocked
-INVARIANT FreeWhenIdle
+INVARIANT TryHonestWhenAlone
 INVARIANT Visibility
 INVARIANT EntrySeesAll
 INVARIANT NoWildAccess
 INVARIANT NeighbourIntact
+INVARIANT TryFailsClean
 CHECK_DEADLOCK FALSE
 SYMMETRY Symm
